@@ -55,6 +55,7 @@ def tier_a_jobs(impl, scripts, aspects, workers_default=15, no_layout=False):
         dirty = {}         # job -> set of handles that must be processed by its next run
         touched = {}       # job -> set of (arch, chunk)
         prev_pos = {}
+        prev_hv, prev_archs, had_do = None, None, False
         typed = {}
         pending_acts = []
         workers = workers_default
@@ -105,17 +106,26 @@ def tier_a_jobs(impl, scripts, aspects, workers_default=15, no_layout=False):
                 if cs_:
                     mark(t[1], cs_)
             # arrivals, moves, relocations, departures: any slot whose occupant changed
-            occ_prev = {v: k for k, v in prev_pos.items()}
-            occ_now = {v: k for k, v in pos.items()}
-            for slot in set(occ_prev) | set(occ_now):
-                if occ_prev.get(slot) != occ_now.get(slot):
-                    ai, p_ = slot
-                    if ai in archs:
-                        for j in touched:
-                            touched[j].add((ai, p_ // max(1, archs[ai]['cs'])))
-                    if slot in occ_now:
-                        for j in dirty:
-                            dirty[j].add(occ_now[slot])
+            def structural_marks():
+                occ_prev = {v: k for k, v in prev_pos.items()}
+                occ_now = {v: k for k, v in pos.items()}
+                for slot in set(occ_prev) | set(occ_now):
+                    if occ_prev.get(slot) != occ_now.get(slot):
+                        ai, p_ = slot
+                        if ai in archs:
+                            for j in touched:
+                                touched[j].add((ai, p_ // max(1, archs[ai]['cs'])))
+                        if slot in occ_now:
+                            for j in dirty:
+                                dirty[j].add(occ_now[slot])
+            # a job run whose callback makes structural calls changes the occupancy itself: those changes count AFTER the run
+            if op not in ('runjob', 'runtyped'):
+                structural_marks()
+            if op == 'jobdo':
+                had_do = True
+            if op in ('runjob', 'runtyped') and had_do and prev_hv is not None:
+                # the callback made structural calls (deferred to the end of the run): what the run saw is the state before it
+                hv, archs, pos = prev_hv, prev_archs, dict(prev_pos)
             if op == 'jobact' and len(t) > 4:
                 pending_acts.append((int(t[1]), t[3], int(t[4])))
             if op in ('runjob', 'runtyped'):
@@ -213,13 +223,23 @@ def tier_a_jobs(impl, scripts, aspects, workers_default=15, no_layout=False):
                             mark(h, ws, but=j)
                 # what the callback itself modified (markDirty / mutable access on some entity) while it ran: every job,
                 # this one included, has to see that at its next run
+                structural_marks()
                 for idx_, h_, pal_ in pending_acts:
                     if idx_ < N and h_ in hv:
                         cs_ = set(pal_cids(lines_of[name], blocks, pal_)) & set(hv[h_].keys())
                         if cs_:
                             mark(h_, cs_)
                 pending_acts = []
+            if op in ('runjob', 'runtyped') and had_do:
+                had_do = False
+                archs = parse_A(b); hv = parse_Hvals(b)
+                pos = {}
+                for ai_, a_ in archs.items():
+                    for p2_, h2_ in enumerate(a_['ents']):
+                        pos[h2_] = (ai_, p2_)
+                structural_marks()
             prev_pos = pos
+            prev_hv, prev_archs = hv, archs
         if fail:
             out.append(dict(script=name, opn=i, op=b['op'], aspect=fail[0], what=fail[1]))
     return out
